@@ -69,7 +69,7 @@ Print Assumptions C04_map_complete_graph_range.
 
 (* ----- binary mappings: value a off n m i = the number spelled by the bits of pigeon i ----- *)
 Theorem C04_map_forbid : forall a off n m i j, 0 <= off -> 1 <= i <= n -> 0 <= j < 2 ^ bitlength m ->
-  exists c, bm_forbid off n m i j = Some c /\ clause_sat a c = negb (value a off n m i =? j) /\ lits_ok c = true.
+  exists c, vmap_forbid off n m i j = Some c /\ clause_sat a c = negb (value a off n m i =? j) /\ lits_ok c = true.
 Proof. exact forbid_sem. Qed.
 Print Assumptions C04_map_forbid.
 
@@ -123,7 +123,7 @@ Print Assumptions C04_map_binary_surjective_raises.
 
 Example C04_map_nonvacuous :
   vm_force_nondecreasing 0 (MUnary [[2; 3]; [1; 3]] 3) = [IClause [-1; -3]; IClause [-2; -3]] /\
-  bm_forbid 0 4 6 4 3 = Some [10; -11; -12] /\
+  vmap_forbid 0 4 6 4 3 = Some [10; -11; -12] /\
   value (fun v => (v =? 11) || (v =? 12)) 0 4 6 4 = 3 /\
   to_cnf (vm_force_complete 0 (MBinary 1 3)) = [[-1; -2]] /\
   irs_hold (fun v => v =? 2) (vm_force_complete 0 (MBinary 1 3)) = true.
